@@ -482,3 +482,218 @@ Proof.
   rewrite N. apply loglike_ext. intros r Hr. apply in_zrange in Hr. split; [reflexivity|].
   unfold comp. rewrite <- (Hg r Hr) at 1. apply nth_outer; rewrite (Hg r Hr); assumption.
 Qed.
+
+(* ================================================================== the library's splitters *)
+Open Scope Z_scope.
+
+Lemma NoDup_app_intro : forall (A : Type) (l l' : list A),
+  NoDup l -> NoDup l' -> (forall x, In x l -> ~ In x l') -> NoDup (l ++ l').
+Proof.
+  induction l as [|a l IH]; intros l' H1 H2 H; simpl; [assumption|].
+  inversion H1; subst. constructor.
+  - rewrite in_app_iff. intros [Hin|Hin]; [contradiction | apply (H a); [now left | assumption]].
+  - apply IH; [assumption | assumption | intros x Hx; apply H; now right].
+Qed.
+
+Lemma NoDup_concat_map : forall (K A : Type) (F : K -> list A) (ks : list K),
+  NoDup ks -> (forall k, In k ks -> NoDup (F k)) ->
+  (forall k k' x, In k ks -> In k' ks -> In x (F k) -> In x (F k') -> k = k') ->
+  NoDup (concat (map F ks)).
+Proof.
+  intros K A F ks. induction ks as [|k ks IH]; intros Hks HF Hd; simpl; [constructor|].
+  inversion Hks; subst. apply NoDup_app_intro.
+  - apply HF. now left.
+  - apply IH; [assumption | intros; apply HF; now right | intros; eapply Hd; eauto; now right].
+  - intros x Hx Hc. apply in_concat in Hc. destruct Hc as [l [Hl Hxl]].
+    apply in_map_iff in Hl. destruct Hl as [k' [<- Hk']].
+    assert (k = k') by (eapply Hd; eauto; [now left | now right]). subst k'. contradiction.
+Qed.
+
+Lemma in_py_range_pos : forall start stop step x, 0 < step ->
+  In x (py_range start stop step) <-> exists j, 0 <= j /\ x = start + j * step /\ x < stop.
+Proof.
+  intros start stop step x Hs. unfold py_range.
+  destruct (0 <? step) eqn:E; [|lia]. rewrite in_map_iff.
+  pose proof (cdiv_spec (stop - start) step Hs) as C.
+  split.
+  - intros [j [Hj Hin]]. apply in_zrange in Hin. exists j. repeat split; try lia. nia.
+  - intros [j [Hj [Hx Hlt]]]. exists j. split; [lia|]. apply in_zrange. nia.
+Qed.
+
+Lemma py_range_NoDup : forall start stop step, NoDup (py_range start stop step).
+Proof.
+  intros. unfold py_range. destruct (0 <? step) eqn:E; [|destruct (step <? 0) eqn:E2; [|constructor]];
+    (apply FinFun.Injective_map_NoDup; [intros a b H; nia | apply zrange_NoDup]).
+Qed.
+
+Lemma py_range_step1 : forall a b, py_range a b 1 = zrange a b.
+Proof.
+  intros a b. unfold py_range. simpl. unfold cdiv. replace (b - a + 1 - 1) with (b - a) by lia.
+  rewrite Z.div_1_r. unfold zrange. rewrite map_map. replace (b - a - 0) with (b - a) by lia.
+  apply map_ext. intros; lia.
+Qed.
+
+(* T04g: the interleaved ranges range(k, n, m), k = 0..m-1, hold every row exactly once *)
+Lemma interleaved_partition : forall n m, 0 < m -> Permutation (concat (interleaved n m)) (zrange 0 n).
+Proof.
+  intros n m Hm. unfold interleaved. apply NoDup_Permutation.
+  - apply NoDup_concat_map.
+    + apply zrange_NoDup.
+    + intros; apply py_range_NoDup.
+    + intros k k' x Hk Hk' Hx Hx'. apply in_zrange in Hk. apply in_zrange in Hk'.
+      apply in_py_range_pos in Hx; [|assumption]. apply in_py_range_pos in Hx'; [|assumption].
+      destruct Hx as [j [Hj [Ex _]]]. destruct Hx' as [j' [Hj' [Ex' _]]].
+      assert (Hm1 : x mod m = k) by (subst x; rewrite Z.mod_add by lia; apply Z.mod_small; lia).
+      assert (Hm2 : x mod m = k') by (rewrite Ex'; rewrite Z.mod_add by lia; apply Z.mod_small; lia).
+      congruence.
+  - apply zrange_NoDup.
+  - intros x. rewrite in_zrange, in_concat. split.
+    + intros [l [Hl Hx]]. apply in_map_iff in Hl. destruct Hl as [k [<- Hk]]. apply in_zrange in Hk.
+      apply in_py_range_pos in Hx; [|assumption]. destruct Hx as [j [Hj [Ex Hlt]]]. nia.
+    + intros Hx. exists (py_range (x mod m) n m). split.
+      * apply in_map_iff. exists (x mod m). split; [reflexivity|]. apply in_zrange.
+        pose proof (Z.mod_pos_bound x m Hm). lia.
+      * apply in_py_range_pos; [assumption|]. exists (x / m).
+        pose proof (Z.div_mod x m ltac:(lia)) as D.
+        split; [apply Z.div_pos; lia|]. split; nia.
+Qed.
+
+(* a reversed range holds the same rows *)
+Lemma py_range_minus1 : forall a b, py_range a b (-1) = map (fun j => a - j) (zrange 0 (a - b)).
+Proof.
+  intros a b. unfold py_range. change (0 <? -1) with false. change (-1 <? 0) with true. cbv iota.
+  change (- -1) with 1. unfold cdiv. replace (a - b + 1 - 1) with (a - b) by lia. rewrite Z.div_1_r.
+  apply map_ext. intros; lia.
+Qed.
+
+Lemma reversed_range : forall n, 0 <= n -> Permutation (py_range (n - 1) (-1) (-1)) (zrange 0 n).
+Proof.
+  intros n Hn. apply NoDup_Permutation; [apply py_range_NoDup | apply zrange_NoDup |].
+  intros x. rewrite py_range_minus1, in_map_iff, in_zrange.
+  replace (n - 1 - -1) with n by lia. split.
+  - intros [j [Hj Hin]]. apply in_zrange in Hin. lia.
+  - intros Hx. exists (n - 1 - x). split; [lia | apply in_zrange; lia].
+Qed.
+
+Lemma nth_zrange : forall s e k d, (k < Z.to_nat (e - s))%nat -> nth k (zrange s e) d = s + Z.of_nat k.
+Proof.
+  intros s e k d H. unfold zrange.
+  rewrite (nth_indep _ d (s + Z.of_nat 0)) by (rewrite map_length, seq_length; exact H).
+  transitivity ((fun k => s + Z.of_nat k) (nth k (seq 0 (Z.to_nat (e - s))) 0%nat)).
+  - apply (map_nth (fun k => s + Z.of_nat k)).
+  - cbv beta. rewrite seq_nth by exact H. reflexivity.
+Qed.
+
+Lemma extract_rows_positions : forall n ps, (forall i, In i ps -> 0 <= i < n) ->
+  extract_rows 0 (zrange 0 n) ps = ps.
+Proof.
+  intros n ps H. unfold extract_rows. rewrite <- (map_id ps) at 2. apply map_ext_in.
+  intros i Hi. specialize (H i Hi). rewrite nth_zrange by lia. lia.
+Qed.
+
+(* numpy.array_split *)
+Lemma firstn_plus : forall (A : Type) (a b : nat) (l : list A),
+  firstn (a + b) l = firstn a l ++ firstn b (skipn a l).
+Proof.
+  intros A a. induction a as [|a IH]; intros b l; simpl; [reflexivity|].
+  destruct l as [|x l]; simpl; [now rewrite firstn_nil | now rewrite IH].
+Qed.
+
+Lemma take_sizes_concat : forall (A : Type) (sizes : list nat) (l : list A),
+  concat (take_sizes sizes l) = firstn (list_sum sizes) l.
+Proof.
+  intros A sizes. induction sizes as [|s ss IH]; intros l; simpl; [reflexivity|].
+  now rewrite IH, firstn_plus.
+Qed.
+
+Lemma sizes_sum_gen : forall q r k : nat,
+  list_sum (map (fun i => if (i <? r)%nat then S q else q) (seq 0 k)) = (k * q + Nat.min r k)%nat.
+Proof.
+  intros q r k. induction k as [|k IH]; [simpl; lia|].
+  rewrite seq_S, map_app, list_sum_app, IH. simpl.
+  destruct (k <? r)%nat eqn:E; [apply Nat.ltb_lt in E | apply Nat.ltb_ge in E]; lia.
+Qed.
+
+Lemma array_split_sizes_sum : forall n k : nat, (0 < k)%nat -> list_sum (array_split_sizes n k) = n.
+Proof.
+  intros n k Hk. unfold array_split_sizes. rewrite sizes_sum_gen.
+  pose proof (Nat.mod_upper_bound n k ltac:(lia)). pose proof (Nat.div_mod n k ltac:(lia)).
+  rewrite Nat.min_l by lia. nia.
+Qed.
+
+(* T04g: numpy.array_split loses and repeats nothing, whatever the remainder of n by k *)
+Lemma array_split_concat : forall (A : Type) (l : list A) (k : nat), (0 < k)%nat ->
+  concat (array_split l k) = l /\ length (array_split l k) = k.
+Proof.
+  intros A l k Hk. unfold array_split. split.
+  - rewrite take_sizes_concat, array_split_sizes_sum by assumption. apply firstn_all.
+  - assert (H : forall (sizes : list nat) (m : list A), length (take_sizes sizes m) = length sizes).
+    { induction sizes as [|s ss IH]; intros m; simpl; [reflexivity | now rewrite IH]. }
+    rewrite H. unfold array_split_sizes. now rewrite map_length, seq_length.
+Qed.
+
+Lemma split_at : forall (A : Type) (i : nat) (l : list A) (d : A), (i < length l)%nat ->
+  firstn i l ++ nth i l d :: skipn (S i) l = l.
+Proof.
+  intros A i. induction i as [|i IH]; intros l d H; destruct l as [|x l]; simpl in *; try lia; [reflexivity|].
+  f_equal. apply IH. lia.
+Qed.
+
+(* every estimation / validation pair of Database.split holds every row exactly once *)
+Lemma estimation_validation_partition : forall (A : Type) (slices : list (list A)) (i : nat),
+  (i < length slices)%nat ->
+  Permutation (estimation_of slices i ++ validation_of slices i) (concat slices).
+Proof.
+  intros A slices i H. unfold estimation_of, validation_of.
+  rewrite <- (split_at _ i slices [] H) at 4.
+  rewrite !concat_app. simpl. rewrite <- app_assoc.
+  apply Permutation_app_head, Permutation_app_comm.
+Qed.
+
+Lemma row_split_concat : forall (A : Type) (l : list A), concat (row_split l) = l.
+Proof. intros A l. unfold row_split. induction l as [|x l IH]; simpl; [reflexivity | now rewrite IH]. Qed.
+
+Open Scope R_scope.
+
+(* the log likelihood summed over the parts made by the library equals the total of the data set *)
+Lemma library_parts_total : forall n m k (shuffled : list Z) w f, (0 < m)%Z -> (0 < k)%nat ->
+  Permutation shuffled (zrange 0 n) ->
+  total_of_parts (interleaved n m) w f = loglike (zrange 0 n) w f /\
+  total_of_parts (array_split shuffled k) w f = loglike (zrange 0 n) w f /\
+  total_of_parts (row_split (zrange 0 n)) w f = loglike (zrange 0 n) w f /\
+  (forall i, (i < k)%nat ->
+     loglike (estimation_of (array_split shuffled k) i) w f + loglike (validation_of (array_split shuffled k) i) w f
+     = loglike (zrange 0 n) w f).
+Proof.
+  intros n m k shuffled w f Hm Hk HP.
+  destruct (array_split_concat Z shuffled k Hk) as [C L].
+  repeat split.
+  - apply sum_over_partition, interleaved_partition. assumption.
+  - apply sum_over_partition. now rewrite C.
+  - apply sum_over_partition. now rewrite row_split_concat.
+  - intros i Hi. rewrite <- loglike_app.
+    rewrite (loglike_perm _ (concat (array_split shuffled k)) w f).
+    + rewrite C. now apply loglike_perm.
+    + apply estimation_validation_partition. now rewrite L.
+Qed.
+
+(* the same for every component of gradient / Hessian / BHHH *)
+Lemma library_parts_vtotal : forall d n m k (shuffled : list Z) w v j, (0 < m)%Z -> (0 < k)%nat ->
+  Permutation shuffled (zrange 0 n) -> (forall r, In r (zrange 0 n) -> length (v r) = d) ->
+  nth j (vtotal_of_parts d (interleaved n m) w v) 0 = loglike (zrange 0 n) w (comp j v) /\
+  nth j (vtotal_of_parts d (array_split shuffled k) w v) 0 = loglike (zrange 0 n) w (comp j v) /\
+  nth j (vtotal_of_parts d (row_split (zrange 0 n)) w v) 0 = loglike (zrange 0 n) w (comp j v).
+Proof.
+  intros d n m k shuffled w v j Hm Hk HP Hv.
+  destruct (array_split_concat Z shuffled k Hk) as [C _].
+  repeat split; apply vsum_over_partition; try assumption.
+  - now apply interleaved_partition.
+  - now rewrite C.
+  - now rewrite row_split_concat.
+Qed.
+
+(* a constant weight c (a Numeric weight formula): c times the unweighted sum *)
+Lemma constant_weight : forall rows c f, loglike rows (fun _ => c) f = c * rsum (map f rows).
+Proof.
+  intros rows c f. unfold loglike. induction rows as [|r rows IH]; simpl; [lra | rewrite IH; lra].
+Qed.
